@@ -5,6 +5,7 @@ import teneva
 from harness.common import *
 from harness.c04 import quasi_diag_tt
 from symtt.ref import ref_full, multi_indices
+from symtt.sym import Sym
 
 
 def _flat(res):
@@ -136,6 +137,55 @@ def h_repeatable(ctx, name):
         ctx.claim('default_cache_stays_empty', len(e1[0]) == 0 and len(e2[0]) == 0)
 
 
+def h_symbolic_seed(ctx, name):
+    """Every integer seed (symbolic, 0 included) selects a seeded stream: no
+    fall-back to OS entropy or to the global generator."""
+    call = _case(ctx, name)
+    seed = ctx.integer('seed')
+    ctx.assume(ctx.ge(seed, 0))
+    ctx.assume(ctx.lt(seed, 2 ** 32))
+    if is_sym(ctx):
+        from symtt.stubs_rng import GlobalRNG
+        n0 = len(ctx.rng_audit)
+        try:
+            r1 = _flat(call(seed))
+            r2 = _flat(call(seed))
+        except GlobalRNG as e:
+            ctx.fail('integer_seed_is_honoured', str(e))
+            return
+        aud = ctx.rng_audit[n0:]
+        ctx.claim('integer_seed_is_honoured', not any(a[0] in ('global', 'unseeded_default_rng') for a in aud))
+        ctx.claim('same_seed_same_result', _identical(ctx, r1, r2))
+    else:
+        np.random.seed(1)
+        r1 = _flat(call(int(seed)))
+        np.random.seed(2)
+        r2 = _flat(call(int(seed)))
+        ctx.claim('integer_seed_is_honoured', _identical(ctx, r1, r2))
+        ctx.claim('same_seed_same_result', _identical(ctx, r1, r2))
+
+
+def h_anova_history(ctx):
+    """An order-2 ANOVA model is not influenced by an earlier model built on other data."""
+    from harness.c13 import _model
+    I1 = [(0, 0), (1, 1), (0, 1), (1, 0)]
+    I2 = [(1, 1), (0, 0), (1, 0), (1, 1)]
+    y1 = vec(ctx, 'p', 4)
+    y2 = vec(ctx, 'q', 4)
+    teneva.ANOVA(np.array(I1), y1, order=2, seed=1)
+    A = teneva.ANOVA(np.array(I2), y2, order=2, seed=1)
+    f0, dom, f1, f2 = _model(I2, y2)
+    ok = [ctx.eq(A.f0, f0)]
+    num = 0
+    for k1 in range(1):
+        for k2 in range(1, 2):
+            for x1 in dom[k1]:
+                for x2 in dom[k2]:
+                    ok.append(ctx.eq(A.f2[num][x1, x2], f2[k1, k2, x1, x2]))
+            num += 1
+    ctx.claim('second_model_independent_of_first', ctx.all_(ok))
+
+
 def h_default_dicts(ctx, which):
     """Optional dictionaries left at their defaults carry nothing over (reuses the C06 / C07 set-ups)."""
     if which == 'cross':
@@ -178,6 +228,9 @@ def instances(tier):
     out = []
     for which in ('cross', 'als'):
         out.append({'func': 'h_default_dicts', 'params': {'which': which}, 'opts': {'generic_divisors': True}})
+    for name in ('rand', 'sample_lhs', 'rand_stab'):
+        out.append({'func': 'h_symbolic_seed', 'params': {'name': name}})
+    out.append({'func': 'h_anova_history', 'params': {}})
     for case in ('cross_act_0', 'cross_act_1', 'cross_act_2', 'cross_act_3', 'core_qr_rand', 'sample_func'):
         out.append({'func': 'h_concrete_seeded', 'params': {'case': case}, 'opts': {'concrete_only': True}})
     for name in ['rand', 'rand_norm', 'rand_stab', 'sample', 'sample_lhs', 'sample_rand', 'sample_rand_poi',
